@@ -516,10 +516,8 @@ impl Store {
         if filter.num_ids() > 0 {
             // Fetch by id
             for id in filter.ids() {
-                // Stop if limited
-                if output.len() >= filter.limit() as usize {
-                    break;
-                }
+                // (the ids are in no particular time order, so all of them must be looked at
+                // before the newest `limit` can be chosen below)
                 if let Some(event) = self.get_event_by_id(id)? {
                     // and check each against the rest of the filter
                     if filter.event_matches(event)? && screen(event) {
